@@ -82,7 +82,7 @@ Definition num_of_text (t : text) (p : option N) (m : mode) : res num :=
         if negb (Nat.eqb len 8) && negb (Nat.eqb len 16) then VTE
         else
           let v := parse_base 2 ds 0 in
-          if Nat.eqb len 8 && isnone p then
+          if Nat.eqb len 8 && isnone p && negb (mode_eqb m MExplExtended) then
             Ok {| n_int := v; n_neg := false; n_hint := Some 2;
                   n_mode := if mode_eqb m MImmediate then m else MDirect |}
           else Ok {| n_int := v; n_neg := false; n_hint := h0; n_mode := m |}
@@ -93,7 +93,7 @@ Definition num_of_text (t : text) (p : option N) (m : mode) : res num :=
         if Nat.ltb 4 len then VTE
         else
           let v := parse_base 16 ds 0 in
-          let '(h1, m1) := if Nat.eqb len 2 && isnone p
+          let '(h1, m1) := if Nat.eqb len 2 && isnone p && negb (mode_eqb m MExplExtended)
                            then (Some 2, if mode_eqb m MImmediate then m else MDirect) else (h0, m) in
           Ok {| n_int := v; n_neg := false; n_hint := h1; n_mode := if mode_eqb m1 MNone then MExtended else m1 |}
       else VTE
@@ -209,12 +209,13 @@ Definition emit_value (v : value) : res (list N) :=
 (* EXPRESSION_REGEX ^([$]*\w+)([+\-/*])([$]*\w+)$ : Some (left, op, right) *)
 Definition is_opchar (c : N) : bool := (c =? 43) || (c =? 45) || (c =? 47) || (c =? 42).
 Definition split_expr (t : text) : option (text * N * text) :=
-  let '(d1, r1) := span (N.eqb 36) t in
+  let sigil := fun c => (c =? 36) || (c =? 37) in
+  let '(d1, r1) := span sigil t in
   let '(w1, r2) := span is_word r1 in
   match w1, r2 with
   | _ :: _, op :: r3 =>
       if is_opchar op then
-        let '(d2, r4) := span (N.eqb 36) r3 in
+        let '(d2, r4) := span sigil r3 in
         let '(w2, r5) := span is_word r4 in
         match w2, r5 with
         | _ :: _, [] => Some (d1 ++ w1, op, d2 ++ w2)
